@@ -137,7 +137,17 @@ func init() {
 		if c, err := p.Count(uint8(atoi(a[2])), atoi(a[3])); err == nil {
 			cnt = "ok:" + itoa(c)
 		}
-		return hexz(header) + " " + strJoin(counts) + " " + cnt + " " + btoa(p.CheckLength(al.Length())) + btoa(p.CheckLength(al.Length()+1))
+		outside := func(err error) string {
+			if err != nil {
+				return "err"
+			}
+			return "ok"
+		}
+		_, e1 := p.CountsAt(n)
+		_, e2 := p.CountsAt(-1)
+		_, e3 := p.NameAt(n)
+		return hexz(header) + " " + strJoin(counts) + " " + cnt + " " + btoa(p.CheckLength(al.Length())) + btoa(p.CheckLength(al.Length()+1)) +
+			" " + outside(e1) + " " + outside(e2) + " " + outside(e3)
 	})
 	// refmuts <alphabet> <seq> <ref>
 	register("refmuts", func(a []string) string {
